@@ -778,7 +778,7 @@ def witness_programs():
 def gen_programs(ck):
     rng = ck.rng
     progs = []
-    n = ck.pick(1500, 40000)
+    n = ck.pick(1500, 30000)
     for i in range(n):
         r = rng.random()
         clean = r < 0.85
